@@ -251,7 +251,7 @@ class Type4Tag(nfc.tag.Tag):
                 return False
 
             capabilities += (15-len(capabilities)) * b"\0"  # for unpack
-            ver, mle, mlc, tag, val = unpack(">BHHB9p", capabilities)
+            ver, mle, mlc, tag, val = unpack(">BHHB9p", capabilities[0:15])
             log.debug("ndef mapping version %d.%d", ver >> 4, ver & 15)
             log.debug("max apdu response length %d", mle)
             log.debug("max apdu command length %d", mlc)
